@@ -31,7 +31,7 @@ for line in open(sys.argv[1]):
                           "demo_fails_with_change": True, "how": "tools/verify_seed.sh in a scratch git worktree of /repo HEAD (removed afterwards)"},
             "demo": "demo.rs is an integration test: copy to src/cwe_checker_lib/tests/seed_demo.rs; cargo test -p cwe_checker_lib --test seed_demo --offline"}
     # changes whose defect site belongs to another property's code are also run against that property's check
-    also = {"C18-a": ["C05"], "C21-b": ["C19"], "C18-c": ["C02"], "C04-d": ["C13"]}.get(f"{pid}-{v}")
+    also = {"C18-a": ["C05"], "C21-b": ["C19"], "C18-c": ["C02"], "C04-d": ["C13"], "C21-e": ["C10", "C12"]}.get(f"{pid}-{v}")
     if also:
         meta["also_run"] = also
     json.dump(meta, open(f"{dst}/meta.json", "w"), indent=1)
